@@ -80,7 +80,8 @@ DoEnqueueEvict == \E s \in Sender, p \in MCPacks : IsNext(s, p) /\ EnqueueEvict(
 \* configuration changes between sends: the default license toggles between LA and LD, the capacity of the queue
 \* between QCap and QCap - 1, the server list between the collector and somewhere else; by field or by ApplyConfig,
 \* which (the code's design) drops the connection and dials again exactly if the license or the server list changed
-DoReconfig == \E via \in {"field", "apply"}, lic \in {"LA", "LD"}, srv \in {Here, "away"}, dialok \in BOOLEAN :
+DoReconfig == conf.gen < MaxCfg /\
+              \E via \in {"field", "apply"}, lic \in {"LA", "LD"}, srv \in {Here, "away"}, dialok \in BOOLEAN :
                 \E qcap \in (IF QueueMode THEN {QCap, QCap - 1} ELSE {QCap}) :
                    LET redial == via = "apply" /\ (lic # conf.deflic \/ srv # conf.srv) IN
                    /\ (lic # conf.deflic \/ qcap # conf.qcap \/ srv # conf.srv)
